@@ -499,3 +499,6 @@ def check_C14(tier, seed):
         assumptions=["a failing statement has no effect of its own (SQLite statement atomicity), which is what the shim simulates",
                      "ROLLBACK, the recovery action itself, is never failed",
                      "track field setters are swept by the C06-level track driver (see known findings)"])
+
+
+from purechecks import check_C19, check_C20, check_C13  # noqa: E402,F401
